@@ -265,6 +265,10 @@ func (sim) Execute(env *core.Env, p *core.Plan) {
 	w := newWorld(p.Seed, cfg, u)
 	w.env, w.drv, w.prop = env, st, p.Prop
 	x := &oracle{w: w, st: st, env: env, prop: p.Prop}
+	if env.Verbose {
+		// replay aid only (not part of the hashed event log)
+		env.Trace = append(env.Trace, u.describe()...)
+	}
 
 	for i, op := range p.Ops {
 		env.Step(i)
@@ -291,6 +295,7 @@ func (sim) Execute(env *core.Env, p *core.Plan) {
 		env.Eff()
 		env.Logf("%d %s | tip=%d known=%d unmined=%d leases=%d", i, w.last, w.tip, len(w.L.Txs), len(w.L.UnminedHashes()), len(w.L.Leases))
 		x.after = op.K
+		x.last = i == len(p.Ops)-1
 		x.check()
 		if env.Failed() {
 			return
